@@ -12,9 +12,10 @@ Families, each over every (pair, policy) (plus `period`, see period_case: grids 
 """
 import random
 
-PAIRS = ["CG", "GC", "NG", "CN", "NN", "BG", "BC", "SC", "GG"]
+PAIRS = ["CG", "GC", "NG", "CN", "NN", "BG", "BC", "SC", "GG", "CS", "BO", "NB"]
 POLICIES = ["D", "S", "K", "G", "P"]
-KINDS = {  # component kinds: P polyhedron (C/N), B box, S bd-shape, G grid
+KINDS = {  # component kinds: P polyhedron (C/N), B box, S bd-shape, O octagon, G grid
+    "CS": ("C", "S"), "BO": ("B", "O"), "NB": ("N", "B"),
     "CG": ("C", "G"), "GC": ("G", "C"), "NG": ("N", "G"), "CN": ("C", "N"), "NN": ("N", "N"),
     "BG": ("B", "G"), "BC": ("B", "C"), "SC": ("S", "C"), "GG": ("G", "G")}
 
@@ -45,6 +46,11 @@ def rvec(r, dim, lo=-3, hi=3, nz=True):
 def rand_con(r, dim, kind_of_comp, allow_strict=True):
     if kind_of_comp in ("B",) or (kind_of_comp == "S" and r.random() < 0.3):
         a = [0] * dim; a[r.randrange(dim)] = r.choice([1, -1, 2, -2, 3])
+    elif kind_of_comp == "O":
+        a = [0] * dim
+        i = r.randrange(dim); a[i] = r.choice([1, -1])
+        if dim > 1 and r.random() < 0.7:
+            j = r.choice([k for k in range(dim) if k != i]); a[j] = r.choice([1, -1])
     elif kind_of_comp == "S":
         a = [0] * dim
         i = r.randrange(dim); a[i] = 1
@@ -150,13 +156,13 @@ def rand_op(r, x, y, dim, kinds, dims):
     if op == "add_constraint":
         # add_constraint throws on grids / boxes / shapes for constraints they cannot represent: equalities only there
         k = rand_con(r, dim, "N", allow_strict=False) if only_poly else con("=", r.randint(-3, 3), rvec(r, dim))
-        if "S" in kinds or "B" in kinds:
+        if "S" in kinds or "B" in kinds or "O" in kinds:
             a = [0] * dim; a[r.randrange(dim)] = 1
             k = con("=", r.randint(-3, 3), a)
         return "op %d %s %s" % (x, op, k), dim
     if op == "add_congruence":
         g = cg(0, r.randint(-3, 3), rvec(r, dim)) if "G" not in kinds or r.random() < 0.3 else rand_cg(r, dim)
-        if "S" in kinds or "B" in kinds:
+        if "S" in kinds or "B" in kinds or "O" in kinds:
             a = [0] * dim; a[r.randrange(dim)] = 1
             g = cg(0, r.randint(-3, 3), a)
         if kinds != ("G", "G") and g.split(" ")[0] != "0":
@@ -325,6 +331,107 @@ def period_case(r, cid, pair, pol):
     return lines
 
 
+TRANSFORMERS = ["affine_image", "affine_preimage", "generalized_affine_image", "generalized_affine_preimage",
+                "generalized_affine_image_lhs", "generalized_affine_preimage_lhs", "bounded_affine_image", "bounded_affine_preimage",
+                "bounded_affine_image", "bounded_affine_preimage", "unconstrain", "unconstrain_set", "time_elapse_assign",
+                "add_space_dimensions_and_embed", "add_space_dimensions_and_project", "remove_higher_space_dimensions",
+                "remove_space_dimensions", "map_space_dimensions", "expand_space_dimension", "fold_space_dimensions",
+                "intersection_assign", "upper_bound_assign", "difference_assign", "widening_assign", "concatenate_assign",
+                "topological_closure_assign"]
+
+
+def transformer_case(r, cid, pair, pol):
+    """EVERY transformer of the product on layouts whose first and/or second component is not a grid: a bounded, non-empty
+    product (box-like bounds around an integer point in both components, each component also carrying information the other
+    lacks; a grid component gets a congruence through that point), then one transformer whose relation makes image and
+    preimage differ (the expression involves another variable and a non-zero constant, denominators 1, 2, -1, 3), then
+    predicates.  Judged by `the result's intersection contains the exact image of the old intersection'."""
+    kinds = KINDS[pair]
+    dim = r.choice([2, 2, 2, 3])
+    p0 = [r.randint(-3, 3) for _ in range(dim)]
+    def comp(k, which):
+        if k == "G":
+            gs = []
+            for i in range(dim):
+                if r.random() < 0.6:
+                    m = r.choice([2, 2, 3, 4]); a = [0] * dim; a[i] = 1
+                    gs.append(cg(m, -p0[i], a))
+            if r.random() < 0.3: gs.append(feas_cg(r, dim, p0))
+            return cons_list([]) + " " + cgs_list(gs)
+        cs = []
+        for i in range(dim):
+            if r.random() < 0.85:
+                lo = p0[i] - r.randint(0, 3); hi = p0[i] + r.randint(0, 4)
+                u = [0] * dim; u[i] = 1
+                if which == 1 or r.random() < 0.7: cs.append(con(">=", -lo, u))
+                if which == 2 or r.random() < 0.7: cs.append(con(">=", hi, [-x for x in u]))
+        if r.random() < 0.5: cs.append(feas_con(r, dim, k, p0, allow_strict=False))
+        return cons_list(cs) + " " + cgs_list([])
+    lines = ["case %s %s %s" % (cid, pair, pol)]
+    for x in (0, 1):
+        lines.append("new %d %d universe" % (x, dim))
+        lines.append("set %d 1 %s" % (x, comp(kinds[0], 1)))
+        lines.append("set %d 2 %s" % (x, comp(kinds[1], 2)))
+        if x == 0 and r.random() < 0.5: p0 = [v + r.choice([0, 1, -1]) for v in p0]
+    if r.random() < 0.3: lines.append("red 0")
+    only_n = all(k == "N" for k in kinds)
+    rels = ["<=", ">=", "==", "<", ">"] if only_n else ["<=", ">=", "=="]
+    def expr(v=None, other=True):
+        e = [r.choice([0, 1, -1, 2]) for _ in range(dim)]
+        if v is not None and other:
+            j = r.choice([k for k in range(dim) if k != v]); e[j] = e[j] or r.choice([1, -1, 2])
+            if r.random() < 0.5: e[v] = 0
+        b = r.choice([1, 2, 3, -1, -2, 5, 10, -7])
+        return "%d %s" % (b, " ".join(map(str, e)))
+    op = r.choice(TRANSFORMERS)
+    v = r.randrange(dim)
+    den = r.choice([1, 1, 2, -1, 3])
+    d = dim
+    if op in ("affine_image", "affine_preimage"): l = "op 0 %s %d %d %s" % (op, v, den, expr(v))
+    elif op in ("generalized_affine_image", "generalized_affine_preimage"): l = "op 0 %s %d %s %d %s" % (op, v, r.choice(rels), den, expr(v))
+    elif op in ("generalized_affine_image_lhs", "generalized_affine_preimage_lhs"):
+        lhs = [0] * dim; lhs[v] = r.choice([1, 1, 2, -1])
+        if r.random() < 0.3: lhs[(v + 1) % dim] = r.choice([1, -1])
+        l = "op 0 %s %d %s %s %s" % (op, r.choice([0, 0, 1, -2]), " ".join(map(str, lhs)), r.choice(rels), expr(v))
+    elif op in ("bounded_affine_image", "bounded_affine_preimage"):
+        e = [r.choice([0, 1, -1, 2]) for _ in range(dim)]; e[v] = 0 if r.random() < 0.7 else e[v]
+        j = r.choice([k for k in range(dim) if k != v]); e[j] = e[j] or 1
+        b = r.choice([0, 1, 10, -3, 5]); w = r.choice([0, 1, 1, 2, 3])
+        ub = list(e)
+        if r.random() < 0.25: ub[j] += r.choice([1, -1])                  # bounds with different slopes
+        l = "op 0 %s %d %d %d %s %d %s" % (op, v, den, b, " ".join(map(str, e)), b + w * (1 if den > 0 else -1), " ".join(map(str, ub)))
+    elif op == "unconstrain": l = "op 0 unconstrain %d" % v
+    elif op == "unconstrain_set":
+        vs = sorted(r.sample(range(dim), r.randint(1, dim))); l = "op 0 unconstrain_set %d %s" % (len(vs), " ".join(map(str, vs)))
+    elif op in ("add_space_dimensions_and_embed", "add_space_dimensions_and_project"): l = "op 0 %s 1" % op; d = dim + 1
+    elif op == "remove_higher_space_dimensions": l = "op 0 %s %d" % (op, dim - 1); d = dim - 1
+    elif op == "remove_space_dimensions": l = "op 0 %s 1 %d" % (op, v); d = dim - 1
+    elif op == "map_space_dimensions":
+        perm = list(range(dim)); r.shuffle(perm)
+        if r.random() < 0.4:
+            k = r.randrange(dim); drop = perm[k]; perm = [(-1 if i == k else (x - 1 if x > drop else x)) for i, x in enumerate(perm)]
+        l = "op 0 %s %d %s" % (op, dim, " ".join(map(str, perm))); d = len([x for x in perm if x >= 0])
+    elif op == "expand_space_dimension": l = "op 0 %s %d 1" % (op, v); d = dim + 1
+    elif op == "fold_space_dimensions":
+        u = r.choice([k for k in range(dim) if k != v]); l = "op 0 %s 1 %d %d" % (op, u, v); d = dim - 1
+    elif op == "widening_assign":
+        # the argument must be contained in the receiver, component by component: the argument is the receiver refined
+        lines.append("op 1 assign 0")
+        lines.append("op 1 refine_with_constraint %s" % feas_con(r, dim, "N", p0, allow_strict=False))
+        lines.append("red 0"); lines.append("red 1")
+        l = "op 0 widening_assign 1"
+    elif op == "concatenate_assign":
+        if dim > 2: op = "intersection_assign"
+        l = "op 0 %s 1" % op; d = dim * 2 if op == "concatenate_assign" else dim
+    elif op == "topological_closure_assign": l = "op 0 %s" % op
+    else: l = "op 0 %s 1" % op
+    lines.append(l)
+    lines.append("qry 0 %s" % r.choice(["is_empty", "domains", "constraints", "is_bounded", "is_universe"]))
+    if r.random() < 0.5: lines.append("red 0")
+    lines.append("end")
+    return lines
+
+
 def reduce_case(r, cid, pair, pol):
     kinds = KINDS[pair]
     dim = r.choice([1, 2, 2, 2, 3])
@@ -413,6 +520,11 @@ def make_cases(seed, n_shrink, n_reduce, n_ops, steps=5, start=0, n_period=None)
     per_pairs = ["CG", "NG", "GC", "CG", "NG", "BG", "GC"]
     for i in range(n_shrink if n_period is None else n_period):
         out += period_case(rp, "p%d" % cid, per_pairs[i % len(per_pairs)], rp.choice(["P", "P", "P", "G", "G", "K", "S"])); cid += 1
+    # every transformer, on layouts with a non-grid second and / or first component: own random stream
+    rt = random.Random(seed * 11 + 5)
+    tr_pairs = ["GC", "CN", "NN", "BC", "SC", "CS", "BO", "NB", "GC", "CG", "NG", "BG"]
+    for i in range((n_shrink * 2) if n_period is None else n_period * 2):
+        out += transformer_case(rt, "t%d" % cid, tr_pairs[i % len(tr_pairs)], rt.choice(POLICIES)); cid += 1
     cons_pairs = ["CN", "NN", "BC", "SC", "CN", "NN"]
     for i in range(n_reduce // 2):
         out += exchange_case(r, "x%d" % cid, cons_pairs[i % len(cons_pairs)], r.choice(["K", "K", "P"])); cid += 1
